@@ -240,6 +240,15 @@ def distinctBy (d : Doc) (l : List Nat) : List Nat :=
     let sv := d.stringValue m
     if acc.2.contains sv then acc else (acc.1 ++ [m], sv :: acc.2)) ([], [])).1
 
+/-- `math:highest` / `math:lowest` (EXSLT): the nodes with the extreme number value, in document order; no node if the set is
+empty or some node's value is NaN -/
+def extremeNodes (d : Doc) (l : List Nat) (highest : Bool) : List Nat :=
+  let vals := l.map fun m => xpathNumber (d.stringValue m)
+  if l.isEmpty || vals.any Float.isNaN then []
+  else
+    let best := vals.foldl (fun acc v => if highest then (if v > acc then v else acc) else (if v < acc then v else acc)) (vals.headD 0.0)
+    l.filter fun m => xpathNumber (d.stringValue m) == best
+
 structure Ctx where
   node : Nat
   pos : Nat
@@ -296,6 +305,11 @@ def callFn (d : Doc) (c : Ctx) (position last : Float) (f : String) (args : List
   | "set:distinct", [.nodes a] => .ok (.nodes (distinctBy d a))
   | "x:distinct", [.nodes a] => .ok (.nodes (distinctBy d a))
   | "x:nodeset", [.nodes a] => .ok (.nodes a)
+  | "x:difference", [.nodes a, .nodes b] => .ok (.nodes (a.filter fun m => !b.contains m))
+  | "x:intersection", [.nodes a, .nodes b] => .ok (.nodes (a.filter fun m => b.contains m))
+  -- EXSLT math: the nodes whose number value is the maximum / minimum; empty when the set is empty or any value is NaN
+  | "math:highest", [.nodes a] => .ok (.nodes (extremeNodes d a true))
+  | "math:lowest", [.nodes a] => .ok (.nodes (extremeNodes d a false))
   | "set:leading", [.nodes a, .nodes b] =>
     match b.head? with
     | none => .ok (.nodes a)
